@@ -1,4 +1,4 @@
-import GateryModel.C14.Verdicts
+import GateryModel.C14.Build
 /-!
 # C14 — property theorems
 
@@ -66,6 +66,16 @@ theorem cannotBothBeTrue_holds (g : Graph) (hwf : g.WF) (r1 r2 : Nat) (h1 : r1 <
   rw [← parse_sound g hwf r1 h1 ρ hu.1, ← parse_sound g hwf r2 h2 ρ hu.2]
   exact cannotBothBeTrue_sound g ρ _ _ h
 
+/-- **A condition rebuilt from its analysed form is equivalent to the original**: for a root whose analysis is neither undefined
+    nor contradicting, `build` appends nodes to the network (leaving the existing ones as they are) and the port it returns
+    (`none` = unconnected = constant true) has, in the extended network and under every valuation, the value of the original root. -/
+theorem rebuilt_equivalent (g : Graph) (hwf : g.WF) (root : Nat) (hr : root < g.size) (allowUnconnected : Bool)
+    (hu : (parse false g (some root)).undef = false) (hc : (parse false g (some root)).contra = false) :
+    let r := build g (parse false g (some root)) allowUnconnected
+    Graph.WF r.1 ∧ Extends g r.1 ∧ ∀ ρ, evalPort r.1 ρ r.2 = eval g ρ root := by
+  obtain ⟨h1, h2, _, h4⟩ := build_sound g hwf (parse false g (some root)) hc (parse_cdrv g hwf root hr) allowUnconnected
+  exact ⟨h1, h2, fun ρ => by rw [h4 ρ, parse_sound g hwf root hr ρ hu]⟩
+
 /-! ### the defect found at the pinned commit (F1), machine checked -/
 
 /-- 0:a 1:b 2:and(0,1) 3:sig(2) 4:not(3) -/
@@ -96,6 +106,7 @@ example : isSubsetOf (parse false gEx (some 2)) (parse false gEx (some 4)) = tru
     cannotBothBeTrue (parse false gEx (some 4)) (parse false gEx (some 5)) = true ∧
     isNegationOf (parse false gEx (some 3)) (parse false gEx (some 5)) = true ∧
     isEqualTo (parse false gEx (some 2)) (parse false gEx (some 3)) = true ∧
-    (parse false gEx (some 4)).undef = false := by decide
+    (parse false gEx (some 4)).undef = false ∧ (parse false gEx (some 4)).contra = false ∧
+    (build gEx (parse false gEx (some 4)) true).1.size = 8 := by decide
 
 end Gatery.C14.Props
